@@ -4,6 +4,15 @@
 
 void GMGPolar::solve()
 {
+    /* The level hierarchy must have been built by setup() for the options now in effect. */
+    if (levels_.empty()) {
+        throw std::runtime_error("solve() requires a preceding call to setup().");
+    }
+    if ((extrapolation_ != ExtrapolationType::NONE && levels_[1].rhs().size() == 0) ||
+        (FMG_ && levels_.back().rhs().size() == 0)) {
+        throw std::runtime_error("Extrapolation or FMG was enabled after setup(); call setup() again.");
+    }
+
     LIKWID_START("Solve");
     auto start_solve = std::chrono::high_resolution_clock::now();
     VERIF_EV("SolveEnter", "\"normsSz\":%d,\"errsSz\":%d,\"fgs\":%d", (int)residual_norms_.size(),
